@@ -184,4 +184,8 @@ def tagged(kind, cls, p, t, rng, nsub=2, nbnd=2):
     for b in range(nbnd):
         k = int(rng.integers(1, min(len(fc), 6) + 1))
         rec['bnd'][f'b{b}'] = [list(fc[j]) for j in sorted(rng.choice(len(fc), size=k, replace=False))]
+    if rng.random() < 0.3:
+        # names that designate nothing stay names that designate nothing
+        rec['sub']['s_empty'] = []
+        rec['bnd']['b_empty'] = []
     return rec
